@@ -471,6 +471,41 @@ fn worker_main(args: &[String]) {
 }
 
 // ---------------------------------------------------------------- parent
+/// CPU time (user + system, all threads) the worker process has consumed so far, in milliseconds.
+fn cpu_ms(pid: u32) -> Option<u64> {
+    let s = std::fs::read_to_string(format!("/proc/{}/stat", pid)).ok()?;
+    let rest = &s[s.rfind(')')? + 2..];
+    let f: Vec<&str> = rest.split_whitespace().collect();
+    let ut: u64 = f.get(11)?.parse().ok()?;
+    let st: u64 = f.get(12)?.parse().ok()?;
+    Some((ut + st) * 10) // USER_HZ = 100
+}
+
+/// Wait for the worker's answer.  The watchdog must not mistake a loaded machine for a hang: when the
+/// wall-clock limit passes, the call counts as hung only if the worker itself burnt CPU for at least
+/// 60% of the limit; otherwise the wait goes on, up to eight times the limit (a worker that neither
+/// answers nor runs - a deadlock - is then reported as well).
+fn recv_patient(w: &Worker, limit_ms: u64) -> Result<Option<String>, RecvTimeoutError> {
+    let pid = w.child.id();
+    let cpu0 = cpu_ms(pid);
+    let slice = Duration::from_millis(limit_ms);
+    for _round in 0..8 {
+        match w.rx.recv_timeout(slice) {
+            Err(RecvTimeoutError::Timeout) => {
+                let used = match (cpu0, cpu_ms(pid)) {
+                    (Some(a), Some(b)) => b.saturating_sub(a),
+                    _ => return Err(RecvTimeoutError::Timeout),
+                };
+                if used * 10 >= limit_ms * 6 {
+                    return Err(RecvTimeoutError::Timeout);
+                }
+            }
+            other => return other,
+        }
+    }
+    Err(RecvTimeoutError::Timeout)
+}
+
 struct Worker {
     child: Child,
     stdin: ChildStdin,
@@ -569,7 +604,7 @@ fn run_main(args: &[String]) -> i32 {
         let reply = if sent.is_err() {
             Err(RecvTimeoutError::Disconnected)
         } else {
-            w.rx.recv_timeout(Duration::from_millis(timeout_ms))
+            recv_patient(&w, timeout_ms)
         };
         // a call answers with two lines: `parsed` (the library returned) and `ret` (the projected result)
         let mut parsed = false;
@@ -578,7 +613,7 @@ fn run_main(args: &[String]) -> i32 {
                 writeln!(tr, "{}", l).ok();
                 tr.flush().ok();
                 parsed = true;
-                w.rx.recv_timeout(Duration::from_millis(timeout_ms * 4))
+                recv_patient(&w, timeout_ms * 4)
             }
             other => other,
         };
